@@ -141,7 +141,7 @@ func replayNative(path string) replayResult {
 	if err := buildTestBinary(); err != nil {
 		return replayResult{"ERROR", err.Error()}
 	}
-	cmd := exec.Command("timeout", "120", testBin, "-test.run", "^TestReplay$", "-test.v", "-test.count=1")
+	cmd := exec.Command("timeout", "60", testBin, "-test.run", "^TestReplay$", "-test.v", "-test.count=1")
 	cmd.Dir = harnessDir
 	cmd.Env = append(os.Environ(), "SYM_REPLAY="+path)
 	out, err := cmd.CombinedOutput()
@@ -169,7 +169,7 @@ func replayNative(path string) replayResult {
 	}
 	if err != nil {
 		if ee, ok := err.(*exec.ExitError); ok && ee.ExitCode() == 124 {
-			return replayResult{"TIMEOUT", "native replay timed out (120 s)"}
+			return replayResult{"TIMEOUT", "native replay timed out (60 s)"}
 		}
 		// a crash of the test binary itself (fatal error, unrecovered panic in another goroutine)
 		tail := s
@@ -495,8 +495,8 @@ func cmdRun(args []string) int {
 		if v.Kind == "panic" {
 			want = "PANIC"
 		}
-		ok := rr.outcome == want || (v.Kind == "assert" && rr.outcome == "PANIC") || (v.Kind == "hang" && rr.outcome == "TIMEOUT")
-		if v.Kind == "frozen" || v.Kind == "race" || v.Kind == "alloc" || v.Kind == "deadlock" {
+		ok := rr.outcome == want || (v.Kind == "assert" && rr.outcome == "PANIC") || ((v.Kind == "hang" || v.Kind == "deadlock") && (rr.outcome == "TIMEOUT" || rr.outcome == "PANIC"))
+		if v.Kind == "frozen" || v.Kind == "race" || v.Kind == "alloc" {
 			// monitor findings have no native assertion; confirmed by their own native procedure
 			ok = confirmMonitorFinding(v, path, rr)
 		}
